@@ -231,3 +231,57 @@ func EnvStructNil(vals map[string]*m.Val) interface{} {
 	}
 	return s.Interface()
 }
+
+var anyType = reflect.TypeOf((*interface{})(nil)).Elem()
+
+// EnvStructDyn: the environment as a Go struct whose fields all have the Go
+// type interface{} (tag = binding name). The Go type then depends on the names
+// only, while the yae type of each binding is that of the value it currently
+// holds — two environments of one Go type can differ in yae type. Optionals
+// cannot be expressed at top level (a nil interface is an error): ok=false.
+func EnvStructDyn(vals map[string]*m.Val) (interface{}, bool) {
+	names := sortedValKeys(vals)
+	fs := make([]reflect.StructField, len(names))
+	for i, n := range names {
+		if vals[n].T.K == m.TMaybe {
+			return nil, false
+		}
+		fs[i] = reflect.StructField{Name: fmt.Sprintf("F%d", i), Type: anyType, Tag: reflect.StructTag(fmt.Sprintf(`yae:"%s"`, n))}
+	}
+	s := reflect.New(reflect.StructOf(fs)).Elem()
+	for i, n := range names {
+		s.Field(i).Set(GoValue(vals[n]))
+	}
+	return s.Interface(), true
+}
+
+// EnvStructPtr: the environment as a Go struct whose fields are untagged
+// pointers: a binding of type T is a non-nil *T, an absent optional of T the
+// nil *T (conv binds that as maybe[T]). A present optional cannot be expressed
+// without the tag: ok=false. Again one Go type, several yae types.
+func EnvStructPtr(vals map[string]*m.Val) (interface{}, bool) {
+	names := sortedValKeys(vals)
+	fs := make([]reflect.StructField, len(names))
+	for i, n := range names {
+		v := vals[n]
+		t := v.T
+		if t.K == m.TMaybe {
+			if v.P != nil {
+				return nil, false
+			}
+			t = t.El()
+		}
+		fs[i] = reflect.StructField{Name: fmt.Sprintf("F%d", i), Type: reflect.PointerTo(GoType(t)), Tag: reflect.StructTag(fmt.Sprintf(`yae:"%s"`, n))}
+	}
+	s := reflect.New(reflect.StructOf(fs)).Elem()
+	for i, n := range names {
+		v := vals[n]
+		if v.T.K == m.TMaybe {
+			continue // nil pointer
+		}
+		p := reflect.New(fs[i].Type.Elem())
+		p.Elem().Set(GoValue(v))
+		s.Field(i).Set(p)
+	}
+	return s.Interface(), true
+}
